@@ -47,7 +47,7 @@ pub fn spec() -> CheckSpec {
     ],
     real_components: "deno_graph fast_check (range finder, transform, cache key and validity), ModuleGraph::build_fast_check_type_graph, symbols, deno_ast+swc; builder for the graphs",
     stub_components: "FastCheckCache (persistent over the history, lossy), Loader and other seams simulated",
-    quick_cases: 1500,
+    quick_cases: 4000,
     thorough_cases: 100000,
     run_case,
     systematic: |_| 0,
